@@ -157,6 +157,14 @@ impl RemovalBuffer {
         }
     }
 
+    /// Forgets removals for an entity.
+    pub(super) fn remove(&mut self, entity: Entity) {
+        if let Some(mut components) = self.removals.remove(&entity) {
+            components.clear();
+            self.ids_buffer.push(components);
+        }
+    }
+
     /// Clears all removals.
     ///
     /// Keeps the allocated memory for reuse.
